@@ -336,8 +336,26 @@ func (d *driver) runFieldOne(w emitter, k int, c *fieldCase) {
 // ---- scalar encodings (C16) ----
 
 func codecValue(val string, d *driver, k int) *big.Int {
+	return codecValueMod(val, d, k, modR)
+}
+
+// m: the modulus whose Montgomery form the "montz:" classes refer to (the value classes around r stay around r for both fields)
+func codecValueMod(val string, d *driver, k int, m *big.Int) *big.Int {
 	one := big.NewInt(1)
 	r := modR
+	if strings.HasPrefix(val, "montz:") && len(val) == 10 {
+		return montZeroPattern(val[6:], m, newPrg("codec-montz", d.seed, k))
+	}
+	if strings.HasPrefix(val, "mont:") || strings.HasPrefix(val, "asmont:") {
+		if v := montClass(val); v != nil {
+			if m.Cmp(modR) != 0 { // the same stored words in the other field
+				w := new(big.Int).Mod(new(big.Int).Mul(v, two256), modR)
+				w.Mul(w, new(big.Int).ModInverse(two256, m))
+				return w.Mod(w, m)
+			}
+			return v
+		}
+	}
 	switch val {
 	case "0":
 		return big.NewInt(0)
@@ -552,6 +570,9 @@ func (d *driver) runCodecCase(w emitter, k int, c *fieldCase) {
 	case "Bytes", "BytesLE", "fpBytesLE", "fpBytes":
 		// encode a scalar, then decode it back with the matching decoder
 		v := codecValue(c.Val, d, k)
+		if c.Fn == "fpBytesLE" || c.Fn == "fpBytes" {
+			v = codecValueMod(c.Val, d, k, modP)
+		}
 		if v == nil {
 			v = new(big.Int).Sub(two256, big.NewInt(1))
 		}
